@@ -833,6 +833,12 @@ def extract_h1_reuse(repo, parents):
           and "self._state = HTTPConnectionState.ACTIVE" in ast.unparse(gate[0].body) and "ConnectionNotAvailable" in ast.unparse(gate[0].orelse))
     out += ["/-- the gate: only a NEW or IDLE connection becomes ACTIVE, under the state lock; otherwise ConnectionNotAvailable -/",
             "def h1GateFromNewOrIdleOnly : Bool := " + ("true" if ok else "false")]
+    fn4 = _find_func(tree, "aclose", cls=cls)
+    body = [ast.unparse(n) for n in fn4.body if not (isinstance(n, ast.Expr) and isinstance(n.value, ast.Constant))]
+    first = body == ["self._state = HTTPConnectionState.CLOSED", "await self._network_stream.aclose()"]
+    out += ["/-- `aclose()` (lock-free): the state is set to CLOSED *before* the network stream is closed, so that whoever passes the gate",
+            "from then on gets ConnectionNotAvailable instead of a dying socket -/",
+            "def h1CloseMarksClosedFirst : Bool := " + ("true" if first else "false")]
     return out
 
 
